@@ -304,6 +304,8 @@ def exact(x):
     """Floats become exact rationals as soon as they enter arithmetic."""
     if isinstance(x, float):
         return to_q(x)
+    if isinstance(x, Rat) and x.d.is_const() and x.n.is_const():
+        return x.n.const_value() / x.d.const_value()  # a number that went through rational-function arithmetic
     return x
 
 
@@ -370,7 +372,7 @@ class Interp:
             return cache[key]
         cache[key] = None
         try:
-            fr = _Frame(self, {}, owner.file, owner.module, None)
+            fr = self.class_frame(owner, ce)
             cls = fr.ev(ce.func)
         except Uninterpretable:
             return None
@@ -378,7 +380,7 @@ class Interp:
             return None
         desc = XObj(cls, {})
         init = self.repo.lookup_method(cls, "__init__")
-        fr = _Frame(self, {}, owner.file, owner.module, None)
+        fr = self.class_frame(owner, ce)
         args = [fr.ev(a) for a in ce.args]
         kwargs = {k.arg: fr.ev(k.value) for k in ce.keywords}
         if init is not None:
@@ -389,7 +391,7 @@ class Interp:
         cache[key] = desc
         return desc
 
-    def eval_class_attr(self, owner, node):
+    def class_frame(self, owner, node=None):
         """the value of a class-level assignment; bare names in it that are sibling class attributes (a table derived from
         another table of the class body) resolve to those attributes"""
         interp = self
@@ -398,11 +400,21 @@ class Interp:
             def get(self_, name):
                 ce, own = interp.repo.class_attr(owner, name)
                 if ce is None or ce is node:
+                    # a function defined earlier in the class body, referred to by its bare name (`partialmethod(__check)`)
+                    for nm in (name, owner.mangle(name) if name.startswith("__") and not name.endswith("__") else name):
+                        f = owner.methods.get(nm)
+                        if f is not None:
+                            return f
+                    nc = interp.repo.nested_class(owner, name)
+                    if nc is not None:
+                        return nc
                     raise KeyError(name)
                 return interp.eval_class_attr(own, ce)
 
-        fr = _Frame(self, _ChainEnv({}, _ClassEnv()), owner.file, owner.module, None)
-        return fr.ev(node)
+        return _Frame(self, _ChainEnv({}, _ClassEnv()), owner.file, owner.module, None)
+
+    def eval_class_attr(self, owner, node):
+        return self.class_frame(owner, node).ev(node)
 
     # ------------------------------------------------------------------
     def call_closure(self, clo: Closure, args, kwargs):
@@ -437,14 +449,23 @@ class Interp:
             outer = _ChainEnv(env, clo.env)
             fr = _Frame(self, outer, clo.file, mi, clo)
             # defaults
+            def _default(d):
+                # defaults are evaluated where the function is DEFINED: for a method, names of the class body are in scope
+                try:
+                    return fr.ev(d)
+                except Uninterpretable:
+                    if clo.finfo is not None and clo.finfo.cls is not None:
+                        return self.class_frame(clo.finfo.cls, d).ev(d)
+                    raise
+
             nd = len(a.defaults)
             for i, d in enumerate(a.defaults):
                 n = names[len(names) - nd + i]
                 if n not in env:
-                    env[n] = fr.ev(d)
+                    env[n] = _default(d)
             for n, d in zip(kwonly, a.kw_defaults):
                 if n not in env and d is not None:
-                    env[n] = fr.ev(d)
+                    env[n] = _default(d)
             for n in names + kwonly:
                 if n not in env:
                     raise Uninterpretable(f"missing argument {n} for {getattr(node, 'name', 'lambda')}", node, clo.file)
@@ -1338,6 +1359,12 @@ class _Frame:
                 return EnumVal(ci, attr, mem[attr])
         f = self.I.repo.lookup_method(ci, attr)
         if f is not None:
+            if f.is_property():
+                # Class.prop: the property object (fget / fset called with an explicit self)
+                st = self.I.repo.lookup_setter(ci, attr)
+                return SimpleNamespace(fget=_Bound(self.I, f, None, static=True), fset=_Bound(self.I, st, None, static=True) if st is not None else None,
+                                       __get__=lambda inst, owner=None, _f=f: self.I.call_function(_f, [], self_obj=inst),
+                                       __set__=lambda inst, v, _s=st: self.I.call_function(_s, [v], self_obj=inst))
             return _Bound(self.I, f, None, static=True)
         nc = self.I.repo.nested_class(ci, attr)
         if nc is not None:
@@ -1465,6 +1492,8 @@ class _Frame:
             return self.I.call_function(f, args, kwargs, self_obj=fn)
         if isinstance(fn, _NpAttr):
             return self.np_call(fn.path, args, kwargs, n)
+        if isinstance(fn, Opaque) and fn.tag in ("import:functools.partialmethod", "import:functools.partial") and args:
+            return _PartialMethod(self.I, args[0], list(args[1:]), dict(kwargs), method=fn.tag.endswith("partialmethod"))
         if isinstance(fn, Opaque) and fn.tag.startswith("import:itertools."):
             import itertools as _itertools
 
@@ -2731,6 +2760,8 @@ def _py_isinstance(obj, cls):
                 return True
             if leaf == "Callable" and (isinstance(obj, (Closure, _Bound, FuncInfo)) or callable(obj)):
                 return True
+            if leaf in ("partialmethod", "partial") and isinstance(obj, _PartialMethod):
+                return True
     return False
 
 
@@ -3234,6 +3265,31 @@ for _k, _v in {
     "intp": int,
 }.items():
     _NP_FUNCS.setdefault(_k, _v)
+
+
+class _PartialMethod:
+    """functools.partialmethod / partial of a function of the repository"""
+
+    _xeval_open = True
+
+    def __init__(self, interp, func, args, kwargs, method=True):
+        self.I, self.func, self.args, self.kwargs, self.method = interp, func, args, kwargs, method
+
+    def _call(self, inst, a, k):
+        kw = dict(self.kwargs)
+        kw.update(k)
+        f = self.func
+        if isinstance(f, FuncInfo):
+            if inst is not None:
+                return self.I.call_function(f, list(self.args) + list(a), kw, self_obj=inst)
+            return self.I.call_function(f, list(self.args) + list(a), kw)
+        return f(*(([inst] if inst is not None else []) + list(self.args) + list(a)), **kw)
+
+    def __get__(self, inst, owner=None):
+        return lambda *a, **k: self._call(inst, a, k)
+
+    def __call__(self, *a, **k):
+        return self._call(None, a, k)
 
 
 def _py_type(o):
